@@ -808,8 +808,11 @@ func checkWarnings(p *Program, r *Report, pk *ssa.Package, runner *ssa.Function)
 			r.OK("R17.5", "sim.Initialise: the found-or-default value is stored in the parameter vector on every path")
 		}
 	}
-	// missing input: on the nil edge of the input lookup a warning is appended
+	// missing input: the branch that skips an input is taken exactly when the lookup found nothing, and appends a warning
 	missing := false
+	skipWhy := ""
+	isConstVal := func(v ssa.Value) bool { _, ok := v.(*ssa.Const); return ok }
+	var skipPos token.Pos
 	for _, initFn := range initFns {
 		eachInstr(initFn, func(b *ssa.BasicBlock, _ int, ins ssa.Instruction) {
 			iff, ok := ins.(*ssa.If)
@@ -817,15 +820,37 @@ func checkWarnings(p *Program, r *Report, pk *ssa.Package, runner *ssa.Function)
 				return
 			}
 			bo, ok := iff.Cond.(*ssa.BinOp)
-			if !ok || bo.Op != token.EQL || !isNilConst(bo.Y) {
+			if !ok {
 				return
 			}
-			c, ok := bo.X.(*ssa.Call)
-			if !ok || callName(c.Common()) != "Find" {
+			isFind := func(v ssa.Value) bool {
+				c, ok := v.(*ssa.Call)
+				return ok && callName(c.Common()) == "Find"
+			}
+			lenOfFind := func(v ssa.Value) bool {
+				c, ok := v.(*ssa.Call)
+				if !ok {
+					return false
+				}
+				bi, ok := c.Common().Value.(*ssa.Builtin)
+				return ok && bi.Name() == "len" && len(c.Common().Args) == 1 && isFind(c.Common().Args[0])
+			}
+			skip := -1
+			switch {
+			case (bo.Op == token.EQL || bo.Op == token.NEQ) && isFind(bo.X) && isNilConst(bo.Y):
+				skip = 0
+				if bo.Op == token.NEQ {
+					skip = 1
+				}
+			case lenOfFind(bo.X) && isConstVal(bo.Y) || lenOfFind(bo.Y) && isConstVal(bo.X):
+				skipWhy = "the number of values found (len(…) " + bo.Op.String() + " a constant)"
+				skipPos = iff.Pos()
+				return
+			default:
 				return
 			}
-			// then-branch contains an append whose result reaches the returned warnings
-			for _, i2 := range b.Succs[0].Instrs {
+			// the skipping branch contains an append whose result reaches the returned warnings
+			for _, i2 := range b.Succs[skip].Instrs {
 				if cc, ok := i2.(*ssa.Call); ok {
 					if bi, ok := cc.Common().Value.(*ssa.Builtin); ok && bi.Name() == "append" && reachesWarnings(cc, map[ssa.Value]bool{}) {
 						missing = true
@@ -833,6 +858,11 @@ func checkWarnings(p *Program, r *Report, pk *ssa.Package, runner *ssa.Function)
 				}
 			}
 		})
+	}
+	if skipWhy != "" {
+		nW++
+		r.Fail("R17.5", "sim.Initialise:input-absent", p.Pos(skipPos), "an input is treated as missing depending on "+skipWhy+", not on whether the request supplied it: a series that was supplied but is empty is reported as missing and zero-filled — it neither sets the simulation length nor takes part in the equal-length check, so a request a direct run would refuse (or run for zero steps) produces ordinary-looking results")
+		missing = true // the warning clause is not the finding here
 	}
 	nW++
 	if missing {
